@@ -18,6 +18,7 @@ an out-of-range or unconsumed choice is a hard error.
 
 from __future__ import annotations
 
+import functools
 import warnings
 
 import numpy as np
@@ -89,11 +90,14 @@ class SolverEnv:
             new = self._wrap_iter(name) if name in ITERATIVE else self._wrap_direct(orig)
             self._saved.append((spl, name, orig))
             setattr(spl, name, new)
-            for m in mods:  # names imported with `from scipy.sparse.linalg import ...`
+            for m in mods:  # names imported with `from scipy.sparse.linalg import ...`, and module-level partials
                 for k, v in list(vars(m).items()):
                     if v is orig:
                         self._saved.append((m, k, orig))
                         setattr(m, k, new)
+                    elif isinstance(v, functools.partial) and v.func is orig:
+                        self._saved.append((m, k, v))
+                        setattr(m, k, functools.partial(new, *v.args, **v.keywords))
         for mod, name in ((scipy.linalg, "solve_banded"), (scipy.linalg, "solveh_banded"),
                           (scipy.linalg, "solve"), (np.linalg, "solve")):
             orig = getattr(mod, name)
